@@ -82,7 +82,7 @@ func bvOfDAG(v ssa.Value, leaf *ssa.Value, depth int) (string, bool) {
 }
 
 // swarLemmaScript builds the bit-vector query for one island and one table.
-func swarLemmaScript(maskBV string, table []*big.Int) string {
+func swarLemmaScript(maskBV string, table []*big.Int, ascii bool) string {
 	var sb strings.Builder
 	sb.WriteString("(set-logic QF_BV)\n(declare-const n (_ BitVec 64))\n")
 	sb.WriteString("(define-fun tbl ((b (_ BitVec 8))) Bool (or false")
@@ -104,8 +104,13 @@ func swarLemmaScript(maskBV string, table []*big.Int) string {
 	var zero, nz []string
 	for t := 0; t < 8; t++ {
 		bt := fmt.Sprintf("((_ extract %d %d) n)", 8*t+7, 8*t)
-		zero = append(zero, fmt.Sprintf("(not (tbl %s))", bt))
-		nz = append(nz, fmt.Sprintf("(=> (bvult #x%016x J) (not (tbl %s)))", t, bt))
+		ok := fmt.Sprintf("(not (tbl %s))", bt)
+		if ascii {
+			// the mask also contains the word itself: a byte that passes is below 0x80 as well
+			ok = fmt.Sprintf("(and (not (tbl %s)) (bvult %s #x80))", bt, bt)
+		}
+		zero = append(zero, ok)
+		nz = append(nz, fmt.Sprintf("(=> (bvult #x%016x J) %s)", t, ok))
 	}
 	fmt.Fprintf(&sb, "(assert (not (and (=> (= m #x0000000000000000) (and %s)) (=> (not (= m #x0000000000000000)) (and (bvule J #x0000000000000007) %s)))))\n",
 		strings.Join(zero, " "), strings.Join(nz, " "))
@@ -174,6 +179,7 @@ func (f *Frame) swarFacts(st *State, x *ssa.BinOp, res *Term) {
 		return
 	}
 	tblName := f.c.Swar[0]
+	ascii := len(f.c.Swar) > 1 && f.c.Swar[1] == "ascii" // "swar <table> ascii": passing bytes are also < 0x80
 	sp := f.fn.Pkg
 	g, _ := sp.Members[tblName].(*ssa.Global)
 	var info *globalInfo
@@ -186,11 +192,14 @@ func (f *Frame) swarFacts(st *State, x *ssa.BinOp, res *Term) {
 	}
 	// (a) the bit-vector lemma, once per distinct island of this function
 	key := "swar:" + bv
+	if ascii {
+		key += ":ascii"
+	}
 	if !vc.swarDone[key] {
 		vc.swarDone[key] = true
 		o := &Obligation{Name: f.oblName("bvlemma", "swar:"+tblName), Kind: "bvlemma", Func: funcKey(f.fn),
 			Text: fmt.Sprintf("bit-vector lemma on the mask expression at line %d: (mask&msb)==0 => no byte of the word is in %s; otherwise no byte before TrailingZeros64(mask&msb)/8 is", vc.P.SSA.Fset.Position(x.Pos()).Line, tblName),
-			RawScript: swarLemmaScript(bv, info.table), vc: vc, Goal: B.True()}
+			RawScript: swarLemmaScript(bv, info.table, ascii), vc: vc, Goal: B.True()}
 		o.Pos = vc.P.SSA.Fset.Position(x.Pos()).String()
 		vc.obls = append(vc.obls, o)
 	}
@@ -212,6 +221,9 @@ func (f *Frame) swarFacts(st *State, x *ssa.BinOp, res *Term) {
 	var zero, nz []*Term
 	for t := 0; t < 8; t++ {
 		nt := B.Not(tbl(bytes[t]))
+		if ascii {
+			nt = B.And(nt, B.Lt(bytes[t], B.Int(128)))
+		}
 		zero = append(zero, nt)
 		nz = append(nz, B.Implies(B.Lt(B.Int(int64(t)), J), nt))
 	}
